@@ -250,6 +250,7 @@ def main(argv=None):
     samples = []
     sample_every = max(1, getattr(mon, "SAMPLE_EVERY", 97))
     violations = []  # (key, result)
+    inc_samples = []
     known_hits = {}
     restarts = 0
     alive = jobs
@@ -283,6 +284,8 @@ def main(argv=None):
         if v == "inconclusive":
             reason = r.get("reason", "unspecified")
             reasons[reason] = reasons.get(reason, 0) + 1
+            if not reason.startswith("expected:") and len(inc_samples) < 5:
+                inc_samples.append({"reason": reason, "detail": str(r.get("detail", ""))[:600], "case": r.get("case"), "observed": r.get("observed")})
         else:
             if r.get("nontrivial"):
                 distinct.add(case_hash(r))
@@ -295,8 +298,13 @@ def main(argv=None):
                 key = mon.classify(r)
             except Exception as e:  # classifier bug must not hide the violation
                 key = "unclassified(%s)" % type(e).__name__
+            parts = str(key).split("+")
             if key in known:
                 known_hits.setdefault(key, []).append(r)
+            elif len(parts) > 1 and all(p_ in known for p_ in parts):
+                # one execution showing several listed mechanisms at once
+                for p_ in parts:
+                    known_hits.setdefault(p_, []).append(r)
             else:
                 violations.append((key, r))
     for t in threads:
@@ -359,6 +367,7 @@ def main(argv=None):
         "violated": counts["violated"],
         "inconclusive": counts["inconclusive"],
         "inconclusive_reasons": reasons,
+        "inconclusive_samples": inc_samples,
         "observed": observed,
         "known_findings_hit": {k: len(v) for k, v in known_hits.items()},
         "new_violation_mechanisms": sorted({str(k) for k, _ in violations}),
@@ -419,6 +428,8 @@ def main(argv=None):
     elif inconclusive_msgs:
         for m in inconclusive_msgs:
             print("INCONCLUSIVE property=%s reason=%s" % (prop, m))
+        for smp in inc_samples[:3]:
+            print("  inconclusive sample: %s" % json.dumps(smp, default=str)[:1200])
         rc = 2
     subprocess.call(["rm", "-rf", logdir]) if rc == 0 else print("  worker logs: %s" % logdir)
     return rc
